@@ -20,9 +20,16 @@ def subst(v, i):
             return v.replace("{$repeat}", str(i))
         return v
     if isinstance(v, dict):
-        return {subst(k, i) if k != "$repeat" else k: subst(x, i) for k, x in v.items()}
+        out = {}
+        for k, x in v.items():
+            if isinstance(x, dict) and "$repeat" in x:
+                # an entry with its own $repeat is its own scope - its key and body see the inner index: left as written
+                out[k] = x
+            else:
+                out[subst(k, i) if k != "$repeat" else k] = subst(x, i)
+        return out
     if isinstance(v, list):
-        return [subst(x, i) for x in v]
+        return [x if (isinstance(x, dict) and "$repeat" in x) else subst(x, i) for x in v]
     return v
 
 
